@@ -259,6 +259,12 @@ def gen_relay(work, tier, seed):
             acts = [{"a": "cs", "decl": 50, "carr": 50}, {"a": "bs", "n": 200}, {"a": "burstclose", "sizes": sizes, "apart": k % 3 == 2}]
             scripts.append({"id": "y%05d" % len(scripts), "origin": "burstclose:%d" % nb, "cfg": base_cfg(token), "transport": tr,
                             "tun": dict(H_A, user="user1" if token else "nuser1"), "steps": session(token)[:4], "actions": acts})
+    # legacy: a second RDG_OUT_DATA request while the host is sending; the client reads on there
+    for k in range(4 if tier == "quick" else 24):
+        token = k % 2 == 0
+        acts = [{"a": "bs", "n": 300}, {"a": "reout", "n": [1 << 20, 3 << 20][k % 2], "afterms": [1, 3, 8, 20][k % 4], "gated": k % 2 == 0}, {"a": "cs", "decl": 9, "carr": 9}, {"a": "bs", "n": 5000}]
+        scripts.append({"id": "y%05d" % len(scripts), "origin": "second-out:%d" % k, "cfg": base_cfg(token), "transport": "legacy",
+                        "tun": dict(H_A, user="user1" if token else "nuser1"), "steps": session(token)[:4], "actions": acts})
     # size ladder: every size class alone in each direction
     for tr in ("ws", "legacy"):
         for n in SIZES + ([3 << 20] if tier == "thorough" else []):
